@@ -690,4 +690,134 @@ pub mod verif_hooks {
     pub fn glyph_variation_index(face: &hb_font_t, c: char, vs: char) -> Option<u16> {
         face.glyph_variation_index(c, vs).map(|g| g.0)
     }
+
+    /// The shaper records of the crate by name (the names of `ot_shaper::verif_hooks::shaper_name`).
+    pub fn shaper_by_name(name: &str) -> Option<&'static hb_ot_shaper_t> {
+        Some(match name {
+            "default" => &DEFAULT_SHAPER,
+            "dumber" => &crate::hb::ot_shaper::DUMBER_SHAPER,
+            "arabic" => &crate::hb::ot_shaper_arabic::ARABIC_SHAPER,
+            "hangul" => &crate::hb::ot_shaper_hangul::HANGUL_SHAPER,
+            "hebrew" => &crate::hb::ot_shaper_hebrew::HEBREW_SHAPER,
+            "indic" => &crate::hb::ot_shaper_indic::INDIC_SHAPER,
+            "khmer" => &crate::hb::ot_shaper_khmer::KHMER_SHAPER,
+            "myanmar" => &crate::hb::ot_shaper_myanmar::MYANMAR_SHAPER,
+            "zawgyi" => &crate::hb::ot_shaper_myanmar::MYANMAR_ZAWGYI_SHAPER,
+            "thai" => &crate::hb::ot_shaper_thai::THAI_SHAPER,
+            "use" => &crate::hb::ot_shaper_use::UNIVERSAL_SHAPER,
+            _ => return None,
+        })
+    }
+
+    /// (has a decompose callback of its own, has a compose callback of its own)
+    pub fn shaper_has_callbacks(name: &str) -> Option<(bool, bool)> {
+        shaper_by_name(name).map(|s| (s.decompose.is_some(), s.compose.is_some()))
+    }
+
+    /// Runs `f` with a normalizer context set up the way `_hb_ot_shape_normalize` sets it up for the
+    /// shaper `name` (`decompose_unicode` / `compose_unicode` overridden by the shaper's callbacks),
+    /// on a plan whose `has_gpos_mark` is `has_gpos_mark`.
+    fn with_callbacks<R>(
+        face: &hb_font_t,
+        name: &str,
+        has_gpos_mark: bool,
+        f: impl FnOnce(&hb_ot_shape_normalize_context_t) -> R,
+    ) -> Option<R> {
+        let shaper = shaper_by_name(name)?;
+        let mut plan = hb_ot_shape_plan_t::new(
+            face,
+            crate::hb::Direction::LeftToRight,
+            None,
+            None,
+            &[],
+        );
+        plan.shaper = shaper;
+        plan.has_gpos_mark = has_gpos_mark;
+        let mut buffer = hb_buffer_t::new();
+        let mut ctx = hb_ot_shape_normalize_context_t {
+            plan: &plan,
+            buffer: &mut buffer,
+            face,
+            decompose: decompose_unicode,
+            compose: compose_unicode,
+        };
+        ctx.override_decompose_and_compose(shaper.decompose, shaper.compose);
+        Some(f(&ctx))
+    }
+
+    /// The compose callback the normalizer uses under shaper `name`, probed over every pair (a, b) of
+    /// scalar values of `ranges` (inclusive): the pairs with an answer, as (a, b, ab).
+    pub fn probe_compose(
+        face: &hb_font_t,
+        name: &str,
+        has_gpos_mark: bool,
+        ranges: &[(u32, u32)],
+    ) -> Option<alloc::vec::Vec<(u32, u32, u32)>> {
+        with_callbacks(face, name, has_gpos_mark, |ctx| {
+            let mut out = alloc::vec::Vec::new();
+            for &(alo, ahi) in ranges {
+                for a in alo..=ahi {
+                    let ca = match char::from_u32(a) {
+                        Some(c) => c,
+                        None => continue,
+                    };
+                    for &(blo, bhi) in ranges {
+                        for b in blo..=bhi {
+                            let cb = match char::from_u32(b) {
+                                Some(c) => c,
+                                None => continue,
+                            };
+                            if let Some(ab) = (ctx.compose)(ctx, ca, cb) {
+                                out.push((a, b, ab as u32));
+                            }
+                        }
+                    }
+                }
+            }
+            out
+        })
+    }
+
+    /// The decompose callback the normalizer uses under shaper `name`, probed over every scalar value
+    /// of `ranges` (inclusive): the characters with an answer, as (ab, a, b).
+    pub fn probe_decompose(
+        face: &hb_font_t,
+        name: &str,
+        has_gpos_mark: bool,
+        ranges: &[(u32, u32)],
+    ) -> Option<alloc::vec::Vec<(u32, u32, u32)>> {
+        with_callbacks(face, name, has_gpos_mark, |ctx| {
+            let mut out = alloc::vec::Vec::new();
+            for &(lo, hi) in ranges {
+                for ab in lo..=hi {
+                    let c = match char::from_u32(ab) {
+                        Some(c) => c,
+                        None => continue,
+                    };
+                    if let Some((a, b)) = (ctx.decompose)(ctx, c) {
+                        out.push((ab, a as u32, b as u32));
+                    }
+                }
+            }
+            out
+        })
+    }
+
+    /// The compose callback on explicit pairs: one answer per pair.
+    pub fn compose_pairs(
+        face: &hb_font_t,
+        name: &str,
+        has_gpos_mark: bool,
+        pairs: &[(u32, u32)],
+    ) -> Option<alloc::vec::Vec<Option<u32>>> {
+        with_callbacks(face, name, has_gpos_mark, |ctx| {
+            pairs
+                .iter()
+                .map(|&(a, b)| match (char::from_u32(a), char::from_u32(b)) {
+                    (Some(a), Some(b)) => (ctx.compose)(ctx, a, b).map(|c| c as u32),
+                    _ => None,
+                })
+                .collect()
+        })
+    }
 }
